@@ -367,7 +367,8 @@ def clause_e(repo, chk):
         for st in walk_local(f.node):
             if isinstance(st, ast.Assign) and isinstance(st.targets[0], ast.Tuple) and isinstance(st.value, ast.Call) and norm_text(st.value.func).startswith("sum_gradient") and st.value.args:
                 first = st.targets[0].elts[0]
-                if isinstance(first, ast.Name) and first.id.startswith("int_"):
+                over_mc = len(f.params) > 2 and any(isinstance(a_, ast.Name) and a_.id == f.params[2] for a_ in list(st.value.args[1:]) + [k_.value for k_ in st.value.keywords])
+                if isinstance(first, ast.Name) and first.id.startswith("int_") and over_mc:
                     integ[first.id] = norm_text(st.value.args[0])
         vmap = {}
         for st in walk_local(f.node):
@@ -394,7 +395,13 @@ def clause_e(repo, chk):
 
         split(ret)
         xname = prob.params[0]
+        mc_param = f.params[2] if len(f.params) > 2 else None  # (self, data, mcdata, ...)
         for t in terms:
+            # every divisor of a component must be the integral, over THIS call's phase-space sample, of a function
+            divisors = [d.right.id for d in ast.walk(t) if isinstance(d, ast.BinOp) and isinstance(d.op, ast.Div) and isinstance(d.right, ast.Name)]
+            for dv in divisors:
+                if dv not in vmap:
+                    chk.violation("E-norm", f.key, "stale-norm:%s" % dv, "the component `%s` is divided by %s, which is not computed in this call as sum_gradient(<function>, %s, ...): a normalisation integral taken from elsewhere (an attribute, an earlier call) belongs to another phase-space sample / parameter point" % (norm_text(t)[:60], dv, mc_param), file="tf_pwa/model/cfit.py", line=prob.lineno)
             dens = [x.id for x in ast.walk(t) if isinstance(x, ast.Name) and x.id in vmap]
             if len(dens) != 1:
                 continue
@@ -476,6 +483,9 @@ def clause_f(repo, chk):
 
 
 def run(repo, chk, tier):
+    from .c07 import check_gauss_constr
+
+    check_gauss_constr(repo, chk, parts=("value",))
     clause_f(repo, chk)
     clause_e(repo, chk)
     clause_d(repo, chk)
